@@ -98,6 +98,11 @@ pub struct CliWorld {
   /// further files that are not sources (nested `.ignore` files), path and content
   #[serde(default)]
   pub aux_files: Vec<(String, String)>,
+  /// `languageGlobs` of sgconfig.yml (language, globs). Some(empty) still writes the key: ast-grep
+  /// registers the table only when the key is present, and launches simulated in one process must
+  /// not inherit the table of an earlier project.
+  #[serde(default)]
+  pub lang_globs: Option<Vec<(String, Vec<String>)>>,
 }
 
 impl CliWorld {
@@ -144,6 +149,16 @@ impl CliWorld {
     }
     if self.with_tests {
       o.push_str("testConfigs:\n- testDir: rule-tests\n");
+    }
+    if let Some(g) = &self.lang_globs {
+      if g.is_empty() {
+        o.push_str("languageGlobs: {}\n");
+      } else {
+        o.push_str("languageGlobs:\n");
+        for (lang, globs) in g {
+          o.push_str(&format!("  {lang}: [{}]\n", globs.iter().map(|x| format!("'{x}'")).collect::<Vec<_>>().join(", ")));
+        }
+      }
     }
     if self.injections > 0 {
       o.push_str("languageInjections:\n");
@@ -278,6 +293,8 @@ pub struct GenOpts {
   pub hard_links: bool,
   /// some projects declare `languageInjections` (css / html inside js and ts template strings)
   pub injections: bool,
+  /// every project writes `languageGlobs` (mostly empty); some map `*.view.ts` files to JavaScript
+  pub lang_globs: bool,
 }
 
 /// Languages used by CLI worlds (those that have rule templates).
@@ -547,8 +564,26 @@ pub fn gen_world(rng: &mut Rng, o: &GenOpts) -> CliWorld {
       aux_files.push((format!("{dir}.ignore"), "{foo\n".to_string()));
     }
   }
+  let mut lang_globs = None;
+  if o.lang_globs {
+    let mut g = vec![];
+    if langs.contains(&"TypeScript") && langs.contains(&"JavaScript") && rng.chance(0.5) {
+      // some TypeScript-named files are to be read as JavaScript
+      let mut any = false;
+      for f in files.iter_mut() {
+        if f.kind == "normal" && f.link_to.is_none() && f.path.ends_with(".ts") && rng.chance(0.5) {
+          f.path = format!("{}.view.ts", f.path.trim_end_matches(".ts"));
+          any = true;
+        }
+      }
+      if any {
+        g.push(("js".to_string(), vec!["*.view.ts".to_string()]));
+      }
+    }
+    lang_globs = Some(g);
+  }
   let _ = lang_of_ext;
-  CliWorld { files, rule_dirs, util_dirs, with_tests: o.with_tests, ignore_file, injections, aux_files }
+  CliWorld { files, rule_dirs, util_dirs, with_tests: o.with_tests, ignore_file, injections, aux_files, lang_globs }
 }
 
 fn rng_free_keep(name: &str) -> bool {
